@@ -340,10 +340,12 @@ func (valuelitFam) ExecAll(cases []core.CaseIn, seed int64, emit func(c core.Cas
 		obs := map[string]any{"panicked": pn.Panicked, "panic_msg": pn.Msg, "panic_site": pn.Site, "text": text, "same_text_twice": true, "check_errors": []string{}, "type_ok": false,
 			"ran": false, "canon_got": "", "canon_want": canon.Canon(v.Interface()), "go_type": v.Type().String()}
 		if !pn.Panicked {
-			for k := 0; k < 3; k++ {
-				if t2, _, _ := render(); t2 != text {
+			for k := 0; k < 8; k++ {
+				t2, imp2, _ := render()
+				if t2 != text || fmt.Sprint(imp2) != fmt.Sprint(imports) {
 					obs["same_text_twice"] = false
 				}
+				imports = imp2 // what a later file of the same process would import
 			}
 			// (1) does the expression compile, with the imports it registered, where a value of its type is expected?
 			vt, isConst, errsV := vlCheck(u, vlFile(imports, "var V "+typeExpr(v.Type())+" = "+text), "V")
